@@ -262,6 +262,17 @@ def restore(before: Tuple) -> None:
             d.update(b)
 
 
+_FLOAT_RE: List[Any] = []
+
+
+def float_re() -> Any:
+    import re
+
+    if not _FLOAT_RE:
+        _FLOAT_RE.append(re.compile(pt.load_shipped().terminals["SIGNED_FLOAT"][1]))
+    return _FLOAT_RE[0]
+
+
 def classify(text: str) -> Tuple[str, Any]:
     import measured
     from measured import Quantity, Unit
@@ -285,9 +296,13 @@ def classify(text: str) -> Tuple[str, Any]:
                 if type(m) not in (int, float):
                     out.append(("bad", f"magnitude type {type(m).__name__}"))
                     continue
-                # the numeric type is the one written: a '.'/exponent marker means float
-                num = text.strip()
-                wrote_float = isinstance(m, float)
+                # the numeric type is the one written: the text starts with a SIGNED_FLOAT token
+                # (tried first by the lexer) or else with a SIGNED_INT token
+                wrote_float = bool(float_re().match(text.lstrip(" \t\x0c\r\n")))
+                if isinstance(m, float) != wrote_float:
+                    out.append(("bad", f"magnitude written as {'float' if wrote_float else 'int'} came back as "
+                                       f"{type(m).__name__}"))
+                    continue
             out.append(("ok", None))
         except (ParseError, KeyError):
             if snapshot() != before:
@@ -322,9 +337,11 @@ def word_worker(task: Tuple) -> Dict[str, Any]:
 
 
 def replay(text: str, why: str) -> str:
-    return families.REPLAY_IMPORTS + f"""from measured import Unit, Quantity
+    return families.REPLAY_IMPORTS + f"""import re
+from measured import Unit, Quantity
 from measured.parsing import ParseError
 text = {text!r}
+FLOAT = re.compile({float_re().pattern!r})     # the grammar's SIGNED_FLOAT terminal
 bad = []
 for fn, typ in ((Unit.parse, Unit), (Quantity.parse, Quantity)):
     names, symbols = dict(Unit._by_name), dict(Unit._by_symbol)
@@ -334,6 +351,8 @@ for fn, typ in ((Unit.parse, Unit), (Quantity.parse, Quantity)):
         if not isinstance(r, typ): bad.append('wrong type')
         if typ is Unit and r is not r2: bad.append('not deterministic')
         if typ is Quantity and type(r.magnitude) not in (int, float): bad.append('magnitude type')
+        if typ is Quantity and isinstance(r.magnitude, float) != bool(FLOAT.match(text.lstrip())):
+            bad.append('magnitude is not of the type written')
     except (ParseError, KeyError) as e:
         print(fn.__qualname__, 'rejected:', type(e).__name__)
         if (names, symbols) != (dict(Unit._by_name), dict(Unit._by_symbol)): bad.append('registries changed')
